@@ -596,6 +596,10 @@ vp('C16', 'fire', 'seeded/C16-scalar-flag-from-latitude-only/patch.diff', 'round
 vp('C17', 'fire', 'seeded/C17-memo-aliased-key/patch.diff', 'round-9 seed C17: memo keyed by the argument array itself')
 vp('C18', 'fire', 'seeded/C18-allclose-same-grid/patch.diff', 'round-9 seed C18: resampling skipped when the indices are allclose')
 vp('C10', 'fire', 'seeded/C10-empty-innovations-shape/patch.diff', 'round-9 seed C10: second dimension of an empty innovation list')
+# ------------------------------------------------------------------ FIELD-STATE (sixth session)
+_FS_OLD = "        result = self._transform_to_output_3d(trajectory)\n        if not self.with_altitude:"
+v('C05 C04 C13', 'fire', 'error_model.py', _FS_OLD, "        if getattr(self, '_last_trajectory', None) is trajectory:\n            return self._last_T\n        result = self._transform_to_output_3d(trajectory)\n        self._last_trajectory = trajectory\n        self._last_T = result\n        if not self.with_altitude:",
+  'memo in the instance keyed by the identity of the argument')
 # ------------------------------------------------------------------ geometry C16 C05 C04 C03 C18
 T = 'transform.py'
 v('C16 C05', 'fire', T, '    rn, _, rp = earth.principal_radii(lla[:, 0], lla[:, 2])\n\n    lla[:, 0] +=',
